@@ -25,6 +25,7 @@ type Report struct {
 	Obligations  []*Obligation       `json:"obligations"`
 	Errors       []string            `json:"errors"`
 	Warnings     []string            `json:"warnings"`
+	Degraded     []string            `json:"degraded"`
 	Assumed      []string            `json:"assumed_contracts_used"`
 	Uncontracted map[string]int      `json:"uncontracted_calls_havocked"`
 	Inlined      []string            `json:"inlined_helpers"`
@@ -316,6 +317,7 @@ func main() {
 	rep.Obligations = sel
 	rep.Errors = eng.errors
 	rep.Warnings = eng.warnings
+	rep.Degraded = eng.degraded
 	for k := range eng.assumedUsed {
 		rep.Assumed = append(rep.Assumed, k)
 	}
